@@ -250,3 +250,6 @@ def gen_ops(rng, tier, ctx=None):
     yield from gen_pairs(rng, tier)
     yield from gen_unary(rng, tier)
     yield from gen_bit_carries(rng, tier)
+
+# source pins: the C the Lean model mirrors (see tools/pins.py)
+PINS = [('mpz/and.c', None), ('mpz/ior.c', None), ('mpz/xor.c', None), ('mpz/com.c', None), ('mpz/setbit.c', None), ('mpz/clrbit.c', None), ('mpz/combit.c', None), ('mpz/tstbit.c', None), ('mpz/scan0.c', None), ('mpz/scan1.c', None), ('mpz/popcount.c', None), ('mpz/hamdist.c', None), ('mpn/generic/popcount.c', None), ('mpn/generic/hamdist.c', None), ('mpn/generic/scan0.c', None), ('mpn/generic/scan1.c', None), ('gmp-impl.h', 'mpn_and_n'), ('gmp-impl.h', 'mpn_andn_n'), ('gmp-impl.h', 'mpn_nand_n'), ('gmp-impl.h', 'mpn_ior_n'), ('gmp-impl.h', 'mpn_iorn_n'), ('gmp-impl.h', 'mpn_nior_n'), ('gmp-impl.h', 'mpn_xor_n'), ('gmp-impl.h', 'mpn_xnor_n'), ('gmp-impl.h', 'MPN_LOGOPS_N_INLINE')]
